@@ -661,19 +661,37 @@ theorem C07.ratSys_lawfulRgcr {n : Nat} (A : RMat n) (mask : Vector Bool n) (pre
     LawfulRgcr (ratSys A mask pre) :=
   FeatModel.Solver.ratSys_lawfulRgcr A mask pre
 
-/-- RGCR (recycling GCR), one `correct()` on an object whose recycled direction pairs satisfy the invariant
-    `q_j = F A p_j` (`DirsOK`): (1) the pairs the solve leaves behind (new pairs orthogonalised and normalised, then
-    cut to a quarter) satisfy the invariant again, and (2) the recursively updated defect is the true filtered residual
-    of the returned iterate, so the status is sound (`SolveSound`, spelled out in `C07.pcg_correct_sound`).
-    The invariant is exactly what a `done_symbolic()` that releases only one of the two lists, or new matrix values
-    behind `done_numeric()/init_numeric()` (open finding c07-edge:F9), destroy. -/
+/-- RGCR (recycling GCR), one `apply()` (filtered right-hand side) or `correct()` on an object whose recycled
+    direction pairs satisfy the invariant `q_j = F A p_j` (`DirsOK`): (1) the pairs the solve leaves behind (new pairs
+    orthogonalised and normalised, then cut to a quarter) satisfy the invariant again, and (2) the recursively updated
+    defect is the true filtered residual of the returned iterate, so the status is sound (`SolveSound`, spelled out in
+    `C07.pcg_correct_sound`).  The invariant is exactly what a `done_symbolic()` that releases only one of the two
+    lists would destroy. -/
 theorem C07.rgcr_solve_sound (S : Sys V α) (hl : LawfulRgcr S) (c : Config α) (prev : State α)
-    (dirs dirs' : List (V × V)) (x0 b : V) (res : Result V α) (hok : DirsOK S dirs)
-    (h : rgcrSolve S c prev dirs false x0 b = some (res, dirs')) :
-    DirsOK S dirs' ∧ SolveSound c x0 (S.nrm (resid S b x0)) (S.nrm (resid S b res.x)) res :=
-  rgcrSolve_spec S hl c prev dirs dirs' x0 b res hok h
+    (dirs dirs' : List (V × V)) (isApply : Bool) (x0 b : V) (res : Result V α) (hok : DirsOK S dirs)
+    (hb : isApply = true → S.Fd b = b) (h : rgcrSolve S c prev dirs isApply x0 b = some (res, dirs')) :
+    DirsOK S dirs' ∧
+      SolveSound c (if isApply then S.ops.zero else x0) (S.nrm (if isApply then b else resid S b x0))
+        (S.nrm (resid S b res.x)) res :=
+  rgcrSolve_spec S hl c prev dirs dirs' isApply x0 b res hok hb h
 
-/-- a brand-new RGCR object, or one after `done_symbolic()` (both lists empty), satisfies the invariant -/
+/-- after `done_numeric(); init_numeric()` — the only way new matrix values can enter — both direction lists are empty
+    (fix of finding c07-edge:F9), so the invariant holds trivially for the NEW system -/
+theorem C07.rgcr_invariant_after_reinit (S' : Sys V α) (dirs : List (V × V)) (re : Nat) (hre : re ≠ 0) :
+    DirsOK S' (if re = 0 then dirs else []) := by
+  rw [if_neg hre]; intro e he; simp at he
+
+/-- RGCR sessions WITH changes of the system (matrix values, filter, preconditioner) between the solves: if a step
+    without re-initialisation keeps the system of the previous step (`StepsOK`), then EVERY solve of the session is
+    sound with respect to its own system — `success ⇒` the true residual (with the new matrix) meets the tolerances —
+    whatever was recycled before.  The driver's `rgcrSession` is the special case of one fixed system. -/
+theorem C07.rgcr_session_sound (c : Config α) (steps : List (Sys V α × Nat × Bool × V × V)) (prevS : Sys V α)
+    (prev : State α) (dirs : List (V × V)) (rs : List (Result V α)) (hok : DirsOK prevS dirs)
+    (hsteps : StepsOK prevS steps) (h : rgcrSessionSys c prev dirs steps = some rs) :
+    SessionSound c steps rs :=
+  rgcrSessionSys_sound c steps prevS prev dirs rs hok hsteps h
+
+/-- a brand-new RGCR object, or one after `done_numeric()` (both lists empty), satisfies the invariant -/
 theorem C07.rgcr_fresh_invariant (S : Sys V α) : DirsOK S [] := fun e he => by simp at he
 
 end sessions
